@@ -174,6 +174,10 @@ def r2_num_out(ctx, nf) -> None:
         elif f is not None:
             got = const(f.default.value) if isinstance(f.default, ast.Constant) else ("opaque", u(f.default))
             node, file = f.node, f.owner.module.path
+            # `x: int = field(default=..)` only means "default .." inside a @dataclass: the decorator is not inherited, so in a
+            # plain subclass the class attribute is the dataclasses.Field object itself
+            if isinstance(f.node.value, ast.Call) and u(f.node.value.func) in ("field", "dataclasses.field") and not f.owner.is_dataclass:
+                got = ("opaque", f"<dataclasses.Field object: {f.owner.name} is not decorated with @dataclass>")
         else:
             ctx.fail("C06.R2", inst, c.module.path, c.node.lineno, f"{cname} has no num_out", c.node)
             continue
